@@ -70,6 +70,8 @@ def history_of(r):
                       "timed": op.startswith("wait") and e["c"] >= 0})
         elif e["ev"] == "ret":
             h.append({"ev": "ret", "t": e["t"], "res": e["res"]})
+        elif e["ev"] == "blocked":
+            h.append({"ev": "blocked", "t": e["t"]})
     h.append({"ev": "reset" if r["end"] and r["end"]["outcome"] == "complete" else "stuck"})
     return h
 
